@@ -1487,8 +1487,22 @@ class SymStr(object):
         return mkstr(out)
 
     def split(self, sep=None, maxsplit=-1):
-        if sep is None or maxsplit != -1:
-            raise Unmodelled('str.split() without separator')
+        if maxsplit != -1:
+            raise Unmodelled('str.split() with maxsplit')
+        if sep is None:
+            # runs of str.isspace() characters separate, no empty parts: one fork per character on its whitespace class
+            parts = []
+            cur = []
+            for c in self.cps:
+                if SymBool(z3.simplify(self._is_strip_char(c, None))):
+                    if cur:
+                        parts.append(mkstr(cur))
+                        cur = []
+                else:
+                    cur.append(c)
+            if cur:
+                parts.append(mkstr(cur))
+            return parts
         sc = cps_of(sep)
         parts = []
         cur = []
